@@ -99,6 +99,32 @@ def check(ctx):
                 and pmatch(f"{FR}[{n.generators[0].target.id}]", n.elt) is not None:
             KEYS = n.generators[0].iter.id
     if KEYS is None:
+        # the key columns are there but pass through a conversion first (a local lambda is beta-reduced by canon): keys are
+        # then compared as CONVERTED values -- every conversion that is not injective on some admitted dtype (a datetime
+        # unit change truncates ns, as_string / as_float merge distinct keys) pairs rows whose keys differ
+        for n in body_nodes(gji.node):
+            if isinstance(n, (ast.GeneratorExp, ast.ListComp)) and len(n.generators) == 1 and isinstance(n.generators[0].iter, ast.Name) \
+                    and isinstance(n.generators[0].target, ast.Name) and not n.generators[0].ifs:
+                colx = f"{FR}[{n.generators[0].target.id}]"
+                convs = [c for c in ast.walk(n.elt) if isinstance(c, ast.Call) and isinstance(c.func, ast.Attribute)
+                         and (c.func.attr.startswith("as_") or c.func.attr in ("astype", "view", "round", "str", "lower", "strip"))
+                         and colx in norm(c.func.value)]
+                if not convs and isinstance(n.elt, ast.Call) and isinstance(n.elt.func, ast.Name) and len(n.elt.args) == 1 and norm(n.elt.args[0]) == colx:
+                    # through a local helper: f = lambda x: x.as_datetime() if x.is_datetime() else x
+                    for d_ in defs_reaching(gji, n.elt.func.id, n):
+                        if isinstance(d_.value, ast.Lambda) and len(d_.value.args.args) == 1:
+                            pn_ = d_.value.args.args[0].arg
+                            convs += [c for c in ast.walk(d_.value.body) if isinstance(c, ast.Call) and isinstance(c.func, ast.Attribute)
+                                      and (c.func.attr.startswith("as_") or c.func.attr in ("astype", "view", "round", "str", "lower", "strip"))
+                                      and norm(c.func.value) == pn_]
+                if convs and colx in norm(n.elt):
+                    ctx.ob("TS-other", gji, norm(n.elt)[:80], n, False,
+                           f"the key columns enter the lookup as {norm(convs[0])[:50]}, not as they are: keys that differ but convert to the same "
+                           f"value (datetime64[ns] keys less than the target unit apart; numbers that round or print alike) are matched, "
+                           f"and with several such right rows the one kept is no longer the first equal one",
+                           clause="never pairs rows with unequal keys")
+                    KEYS = n.generators[0].iter.id
+    if KEYS is None:
         raise AnalysisError("cannot identify the key-name list of the right-hand frame in _get_join_indices")
 
     def chain_state(value, keys):
@@ -280,6 +306,29 @@ def check(ctx):
            "matched left rows and their right rows are selected by the same found/src pair" if ok else
            "left and right columns of inner_join are selected by indices that do not correspond",
            clause="inner_join is exactly the matched subset")
+    # GRD-src: src holds -1 for the rows without a match.  It may index a column only through the found mask
+    # (column[src[found]]); column[src] reads the LAST row for every unmatched row and raises IndexError when the right
+    # frame has no rows -- also when it is evaluated "only to be masked afterwards" (np.where(src > -1, column[src], na)).
+    ctx.rule("GRD-src", "the match positions index a column only after the not-found marker has been masked out")
+    n_src = 0
+    for name in ("inner_join", "left_join"):
+        fn = repo.fn(f"{DF}.{name}")
+        up = [n for n in body_nodes(fn.node) if isinstance(n, ast.Assign) and isinstance(n.targets[0], ast.Tuple)
+              and isinstance(n.value, ast.Call) and isinstance(n.value.func, ast.Attribute) and n.value.func.attr == "_get_join_indices"]
+        if not up or pos_s is None or len(up[0].targets[0].elts) <= pos_s:
+            continue
+        SRC_ = text(up[0].targets[0].elts[pos_s])
+        for sub in [n for n in body_nodes(fn.node) if isinstance(n, ast.Subscript) and isinstance(n.ctx, ast.Load)]:
+            if norm(sub.value) == SRC_:
+                n_src += 1
+                continue
+            if norm(sub.slice) == SRC_:
+                n_src += 1
+                ctx.ob("GRD-src", fn, norm(sub), sub, False,
+                       f"{norm(sub)} indexes with the unmasked match positions: unmatched rows carry -1, so the expression reads the last "
+                       f"row for them and raises IndexError (index -1 is out of bounds for size 0) when the right frame is empty or nothing "
+                       f"can match -- even if the values are discarded afterwards", clause="all joins succeed when either side is empty or nothing matches")
+    ctx.count("uses of the match positions in inner_join / left_join", n_src, 2)
     for name in ("inner_join", "left_join"):
         fn = repo.fn(f"{DF}.{name}")
         gj = [c for _, c in calls_in(fn) if isinstance(c.func, ast.Attribute) and c.func.attr == "_get_join_indices"]
